@@ -125,6 +125,8 @@ INTERVENING = (
 
 
 def enumerate_cases(tier: str):
+    # one event of every kind under every environment dimension (transport kind, logging, warnings, a bystander gateway, registry file, ...)
+    yield from drive.env_sweep_cases()
     # one parked command, one intervening event of every kind, then the wake: the command is owed whatever happened in between
     registry = {
         "11": {"node_id": 11, "node_type": 17, "protocol_version": "2.0", "sketch_name": "", "sketch_version": "", "battery_level": 0, "heartbeat": 0, "sleeping": True,
@@ -176,6 +178,8 @@ def enumerate_cases(tier: str):
 
 
 def run_case(case: dict) -> Outcome:
+    if case.get("kind") == "envsweep":
+        return drive.run_env_case(case, ASPECTS)
     bad, info = env.run(drive.run_history(case, ASPECTS))
     classes = tuple(sorted(info["classes"])) + (f"version={case['version']}",)
     if bad is not None:
